@@ -671,6 +671,10 @@ func (r Registry[R, T]) LinkMessage(
 		if r.hooks.OnClientConnect != nil {
 			r.hooks.OnClientConnect(remoteID)
 		}
+
+		if hooks.OnClientConnect != nil {
+			hooks.OnClientConnect(remoteID)
+		}
 		verifTrace("setup.registered", remoteID)
 
 		r.remotesLock.Unlock()
@@ -681,6 +685,10 @@ func (r Registry[R, T]) LinkMessage(
 
 			if r.hooks.OnClientDisconnect != nil {
 				r.hooks.OnClientDisconnect(remoteID)
+			}
+
+			if hooks.OnClientDisconnect != nil {
+				hooks.OnClientDisconnect(remoteID)
 			}
 			verifTrace("setup.unregistered", remoteID)
 
